@@ -16,6 +16,16 @@ from . import common, gen, pertable, _mk
 PID = 'C07'
 
 
+def _tabguard(get):
+    def deco(fn):
+        def case(mdl, what):
+            objs, props, cells = get()
+            return {'kind': f'table:{PID}', 'objects': list(objs), 'properties': list(props),
+                    'table': harness.table_from_model(mdl, cells), 'what': what}
+        return common.guarded(fn, case)
+    return deco
+
+
 def units(tier, seed):
     if tier == 'quick':
         lem = [(n, m) for n in range(1, 6) for m in range(1, 6) if abs(n - m) <= 1]
@@ -26,10 +36,12 @@ def units(tier, seed):
     us = gen.kernel_units(set(t))
     us += [{'name': f'join/meet lemma {n}x{m}', 'fn': 'unit_lemma', 'args': {'n': n, 'm': m}} for n, m in lem]
     us += _mk.table_units(t)
+    us += _mk.inductive_units(tier) + _mk.skeleton_units(tier, seed)
     return _mk.order(us)
 
 
 unit_kernel = _mk.kernel_unit_for(PID)
+unit_inductive = _mk.inductive_unit_for(PID)
 
 
 def unit_table(args, prefix=(), max_depth=None):
@@ -53,7 +65,7 @@ def unit_lemma(args, prefix=(), max_depth=None):
     xs = [z3.BitVec(f'x{k}', core.W) for k in range(3)]
     objs, props = harness.names(n, m)
 
-    @common.guarded
+    @_tabguard(lambda: (objs, props, cells))
     def body():
         cx = core.ctx()
         ctx = concepts.Context(objs, props, harness.sym_rows(cells))
